@@ -59,7 +59,7 @@ fn write_exec(path: &Path, text: &str) {
 }
 
 fn llvm_half(rep: &mut Report, rng: &mut Rng) {
-    let n = rep.budget(25, 15);
+    let n = rep.budget(80, 6);
     let stubs = rep.workdir.join("stubs");
     std::fs::create_dir_all(&stubs).unwrap();
     write_exec(&stubs.join("llvm-profdata"), PROFDATA_STUB);
@@ -285,7 +285,7 @@ fn read_gcov_text(text: &str) -> (BTreeMap<u32, u64>, BTreeMap<String, bool>) {
 }
 
 fn gcc_half(rep: &mut Report, rng: &mut Rng) {
-    let n = rep.budget(6, 15);
+    let n = rep.budget(15, 8);
     for c in 0..n {
         let dir = rep.workdir.join(format!("gcc{}", c));
         let _ = std::fs::remove_dir_all(&dir);
